@@ -161,3 +161,42 @@ def reused_buffer(arr):
         buf = _BUFFERS[key] = np.empty(arr.shape, dtype=arr.dtype)
     buf[...] = arr
     return buf
+
+
+DERIVATIONS = ['fresh', 'copy', 'deepcopy', 'pickle', 'dict']
+
+
+def derived(rng, obj, how=None):
+    """an object that went through a copy / deepcopy / pickle / to_dict+from_dict round trip before it is used (or the
+    object itself): the operation under test must not tell a derived object from a freshly constructed one.
+    Returns (object, how)."""
+    import copy
+    import pickle
+    how = how or pick(rng, DERIVATIONS)
+    if how == 'copy' and hasattr(obj, 'copy'):
+        return obj.copy(), how
+    if how == 'deepcopy':
+        return copy.deepcopy(obj), how
+    if how == 'pickle':
+        return pickle.loads(pickle.dumps(obj)), how
+    if how == 'dict' and hasattr(obj, 'to_dict'):
+        d = obj.to_dict()
+        name = type(obj).__name__
+        if name == 'RDMs':
+            from rsatoolbox.rdm import rdms_from_dict
+            return rdms_from_dict(d), how
+        if name in ('Dataset', 'TemporalDataset'):
+            from rsatoolbox.data.dataset import dataset_from_dict
+            return dataset_from_dict(d), how
+        if hasattr(type(obj), 'from_dict'):
+            return type(obj).from_dict(d), how
+    return obj, 'fresh'
+
+
+_CYCLE = [0]
+
+
+def derived_cycle(obj, ways=('fresh', 'copy', 'pickle', 'fresh', 'deepcopy', 'dict')):
+    """derived(), the way taken in turn (no random numbers consumed: the case streams stay as they were)"""
+    _CYCLE[0] += 1
+    return derived(None, obj, ways[_CYCLE[0] % len(ways)])[0]
